@@ -65,7 +65,7 @@ def ren_request(before, abefore, fault, old, new):
     return "ren old=%s new=%s active=%s scripts=%s faults=%s" % (
         _h(old), _h(new), "-" if abefore is None else _h(abefore),
         ";".join("%s:%s" % (_h(n), _h(c)) for n, c in before.items()) or "-",
-        ("%s:%s" % fault) if fault else "-")
+        ("%s:%s" % (fault[0], fault[1].split(":")[0])) if fault else "-")
 
 
 def ren_canon(res, scripts, active):
@@ -111,6 +111,9 @@ def run(ctx):
             if n != "absent":
                 scripts[new] = r.choice(BODIES)
             active = old if o == "active" else (new if n == "active" else (other if by and r.random() < 0.3 else None))
+            if fault and fault[1] == "NO" and rep % 2:
+                # the refusal carries a response code of its own (NONEXISTENT, ACTIVE, …) or none: a NO is a NO
+                fault = (fault[0], "NO:" + r.choice(["NONEXISTENT", "ACTIVE", "ALREADYEXISTS", "QUOTA/MAXSCRIPTS", ""]))
             srv = refserver.RefServer(r, scripts=scripts, active=active, version=False, faults=dict([fault]) if fault else {})
             s = msref.Session()
             g = srv.greeting()
